@@ -40,6 +40,8 @@ MIN_REACH = {
     "panels_compared": {"quick": 150, "thorough": 2500},
     "hist_series_compared": {"quick": 80, "thorough": 1200},
     "heatmap_cells_compared": {"quick": 500, "thorough": 8000},
+    "heatmap_norms_compared": {"quick": 15, "thorough": 250},
+    "explicit_colour_limits": {"quick": 8, "thorough": 150},
 }
 TIME_BUDGET = {"quick": 500, "thorough": 3400}
 KINDS = ["lineplot", "lineplot", "scatter", "scatter", "histogram", "heatmap", "lineplot_grid", "scatter_grid", "heatmap_grid",
@@ -101,6 +103,20 @@ def cases(ctx):
             o["line_widths"] = [0.5, 2.0]
         if kind.startswith("histogram") or kind == "auto_histogram":
             o["bins"] = rng.choice([5, 10, 30, "edges"])
+        # the colour-mapped quantity starts at exactly 0 (count-like data), and explicit colour limits incl. 0
+        c["zero_floor"] = rng.random() < 0.3
+        mapped = ("heatmap" in kind and not kind.startswith("auto")) or kind == "lineplot_c" or \
+            (kind in ("scatter", "scatter_grid") and c["dseed"] % 3 == 0) or \
+            (kind in ("lineplot", "lineplot_grid", "scatter", "scatter_grid") and o.get("colors") is True and c["ztype"] != "str")
+        if mapped and not o.get("colormap_log") and rng.random() < 0.3:
+            lo = rng.choice([0, 0, 0.0, 0.5, -1.0, None])
+            hi = rng.choice([None, None, 0, 2.0, 3.5])
+            if lo is not None and hi is not None and hi <= lo:
+                hi = None
+            if lo is not None:
+                o["vmin"] = lo
+            if hi is not None:
+                o["vmax"] = hi
         c["opts"] = o
         yield c
 
@@ -137,7 +153,7 @@ def build(case):
     ztype = case["ztype"] if "heatmap" not in kind else "float"
     if o.get("colormap_log"):
         ztype = "int"
-    z = _axis(rng, nz, ztype, case["zorder"], case["uniform"], lo=1.0)
+    z = _axis(rng, nz, ztype, case["zorder"], case["uniform"], lo=0.0 if case.get("zero_floor") and not o.get("colormap_log") else 1.0)
     coords = {"x": x, "z": z}
     dims = ["z", "x"]
     if grid:
@@ -175,6 +191,11 @@ def build(case):
             v[tuple(idx)] = np.nan
         return v
     data = {"y": (tuple(dims), holes(values()))}
+    if case.get("zero_floor") and "heatmap" in kind:
+        yv = data["y"][1]
+        fin = yv[np.isfinite(yv)]
+        if fin.size:
+            yv -= fin.min()             # the smallest shown value is exactly 0.0 (in one panel of a grid only)
     if kind == "lineplot_multivar":
         data["y2"] = (tuple(dims), holes(values()))
         data["y3"] = (tuple(dims), values())
@@ -192,6 +213,8 @@ def build(case):
         cz = rng.normal(size=nz) * 3
         if o.get("colormap_log"):
             cz = np.abs(cz) + 0.1
+        elif case.get("zero_floor"):
+            cz = cz - cz.min()
         data["cc"] = (("z",), cz)
     if kind == "scatter_2d":
         # x and y are data variables over the same dimensions (p, q) [and z] but STORED in different dimension orders,
@@ -215,10 +238,12 @@ def build(case):
             data["w2"] = (("q",), rng.normal(size=nq))
         coords.pop("x", None)
         return xr.Dataset(data, coords=coords)
-    if kind == "scatter" and case["dseed"] % 3 == 0:
+    if kind in ("scatter", "scatter_grid") and case["dseed"] % 3 == 0:
         cv = values()
         if o.get("colormap_log"):
             cv = np.abs(cv) + 0.1
+        elif case.get("zero_floor"):
+            cv = cv - cv.min()
         data["cv"] = (tuple(dims), cv)
     return xr.Dataset(data, coords=coords)
 
@@ -271,6 +296,8 @@ def expected_series_colors(o, zvals, cvals=None):
     if not numeric:
         return [cmap(t) for t in np.linspace(0, 1, len(vals))]
     lo, hi = float(min(vals)), float(max(vals))
+    lo = lo if o.get("vmin") is None else float(o["vmin"])
+    hi = hi if o.get("vmax") is None else float(o["vmax"])
     norm = (mc.LogNorm if o.get("colormap_log") else mc.Normalize)(vmin=lo, vmax=hi)
     return [cmap(norm(v)) for v in vals]
 
@@ -334,7 +361,9 @@ def judge_line_axes(ctx, ax, ds, case, o, xname, ynames, zvals, kind, labels, wa
                     # the colours really drawn: chosen colormap at the plot-wide normalised value
                     allc = np.asarray(ds_full_c, dtype=float)
                     allc = allc[np.isfinite(allc)]
-                    gnorm = (mc.LogNorm if o.get("colormap_log") else mc.Normalize)(vmin=float(allc.min()), vmax=float(allc.max()))
+                    glo = float(allc.min()) if o.get("vmin") is None else float(o["vmin"])
+                    ghi = float(allc.max()) if o.get("vmax") is None else float(o["vmax"])
+                    gnorm = (mc.LogNorm if o.get("colormap_log") else mc.Normalize)(vmin=glo, vmax=ghi)
                     cm_ = expected_cmap(o.get("colormap"), o.get("colormap_reverse", False))
                     drawn = art.to_rgba(np.asarray(arr, dtype=float))
                     wanted = cm_(gnorm(np.asarray(arr, dtype=float)))
@@ -399,6 +428,25 @@ def run_case(ctx, case):
     base = kind.replace("_grid", "")
     sig = {"api": base, "grid": grid}
     bad = []
+    if o.get("vmin") is not None or o.get("vmax") is not None:
+        # explicit colour limits must leave a non-empty range together with the data's own limits (anything else is a
+        # caller error): drop a limit that lies beyond the other end of the mapped quantity
+        if "heatmap" in kind:
+            q = np.asarray(ds["y"].values, dtype=float)
+        elif kind == "lineplot_c":
+            q = np.asarray(ds["cc"].values, dtype=float)
+        elif "cv" in ds:
+            q = np.asarray(ds["cv"].values, dtype=float)
+        else:
+            q = np.asarray(ds["z"].values, dtype=float)
+        q = q[np.isfinite(q)]
+        qlo, qhi = (float(q.min()), float(q.max())) if q.size else (0.0, 1.0)
+        if o.get("vmin") is not None and not o["vmin"] < (qhi if o.get("vmax") is None else o["vmax"]):
+            o.pop("vmin")
+        if o.get("vmax") is not None and not o["vmax"] > (qlo if o.get("vmin") is None else o["vmin"]):
+            o.pop("vmax")
+        if "vmin" in o or "vmax" in o:
+            ctx.count("explicit_colour_limits")
     kw = {k: v for k, v in o.items() if not k.startswith("_")}
     if kw.get("zlabels") == "custom":
         kw["zlabels"] = ["L%d" % i for i in range(max(3, len(zvals)))]
@@ -477,7 +525,7 @@ def run_case(ctx, case):
             elif base == "histogram":
                 fig = xyzpy.histogram(ds, "y", "z", **kw)
             elif base == "heatmap":
-                hk = {k: v for k, v in kw.items() if k in ("colormap", "title", "row", "col", "colorbar")}
+                hk = {k: v for k, v in kw.items() if k in ("colormap", "title", "row", "col", "colorbar", "vmin", "vmax")}
                 fig = xyzpy.heatmap(ds, "x", "z", "y", **hk)
             elif base == "auto_lineplot":
                 o = {k: v for k, v in o.items() if k in ("colors", "colormap", "colormap_reverse", "markers", "legend")}
@@ -616,7 +664,7 @@ def run_case(ctx, case):
                 e2, h2 = hist_heights(poly)
                 want_h, _ = np.histogram(s, bins=edges, density=True)
                 ctx.count("hist_series_compared")
-                if len(h2) != len(want_h) or not np.allclose(e2, edges, rtol=1e-9, atol=1e-12) or not np.allclose(h2, want_h, rtol=1e-9, atol=1e-12):
+                if len(h2) != len(want_h) or not np.allclose(e2, edges, rtol=1e-9, atol=1e-12) or not np.allclose(h2, want_h, rtol=1e-9, atol=1e-12, equal_nan=True):      # (no value inside the edges: 0/0 densities both ways)
                     bad.append("histogram of series %r does not bin its %d finite values (drawn heights %s, np.histogram %s)" % (
                         lb, len(s), np.round(h2[:5], 4).tolist(), np.round(want_h[:5], 4).tolist()))
                     break
@@ -640,6 +688,16 @@ def run_case(ctx, case):
                 bad.append("%d meshes in heat-map panel" % len(meshes))
                 continue
             mesh = meshes[0]
+            ally = np.asarray(ds["y"].values, dtype=float)
+            if base == "heatmap" and np.isfinite(ally[~np.isnan(ally)]).all() and np.isfinite(ally).any():
+                # every panel is coloured over the plot-wide range (what a shared colour bar shows), or the explicit limits
+                wlo = float(np.nanmin(ally)) if o.get("vmin") is None else float(o["vmin"])
+                whi = float(np.nanmax(ally)) if o.get("vmax") is None else float(o["vmax"])
+                ctx.count("heatmap_norms_compared")
+                if wlo < whi and not (mesh.norm.vmin == wlo and mesh.norm.vmax == whi):      # (a single value has no range: matplotlib widens it)
+                    bad.append("heat-map panel (%d, %d) is colour-normalised over (%r, %r) instead of (%r, %r)" % (
+                        i, j, mesh.norm.vmin, mesh.norm.vmax, wlo, whi))
+                    break
             arr = np.ma.masked_invalid(np.ma.asarray(mesh.get_array(), dtype=float))
             coords_xy = np.asarray(mesh.get_coordinates(), dtype=float)
             if base == "auto_heatmap":
